@@ -33,7 +33,7 @@ MANIFEST = dict(
          "the FIFO specification plus cbuf.c's request/growth policy AND, through the proved simulation "
          "Relay/IndexSim.lean (on C13's refinement lemmas), for the relay over the index-level model of cbuf.c that "
          "is executed against the real code; "
-         "kernel delivery, poll loop and threads are exercised by real runs, not modelled; -S/-k streams (marker) "
+         "the poll/read loop of _rsh_thread is a transition system over both descriptors (any poll order, short reads, EAGAIN, EINTR) with its own theorems; the constants the proof needs (cbuf_create arguments, CBUF_CHUNK, tail buffer) enter through decidable side conditions proved for the regenerated values; kernel delivery and threads are exercised by the scheduler part and real runs; -S/-k streams (marker) "
          "are outside the domain (C08)")
 
 
